@@ -216,6 +216,45 @@ func setCL(r *rng, np int, emit func(op string, exp string)) {
 			emit(fmt.Sprintf("K IsCurrentTickInRange %d %d %d", tc, tl, th), guard(func() string {
 				return b2s(lptypes.Pool{CurrentTick: tc}.IsCurrentTickInRange(tl, th))
 			}))
+			// tick <-> price conversions (hand-written loops in tick.go; model Model/TickMath.lean), incl. prices exactly on and
+			// one ulp around tick boundaries, which exercise the +-1 correction branches of CalculateSqrtPriceToTick
+			if i%3 == 0 {
+				ratios := []string{"1.0001", "1.01", "1.1", "2", "1.000001"}
+				offs := []string{"0", "0.5", "0.25", "0.999"}
+				tp := lptypes.TickParams{PriceRatio: ratios[r.n(len(ratios))], BaseOffset: offs[r.n(len(offs))]}
+				if tp.BaseOffset != "0" && tp.BaseOffset != "0.5" && (tp.PriceRatio == "2" || tp.PriceRatio == "1.1") {
+					tp.BaseOffset = "0.5"
+				}
+				tick := int64(r.n(4001) - 2000)
+				if tp.PriceRatio == "2" {
+					tick = int64(r.n(101) - 50)
+				}
+				rr, ro := math.LegacyMustNewDecFromStr(tp.PriceRatio), math.LegacyMustNewDecFromStr(tp.BaseOffset)
+				var spRaw *big.Int
+				emit(fmt.Sprintf("K TickToSqrtPrice %d %s %s", tick, rawOf(rr), rawOf(ro)), guard(func() string {
+					sp, err := lptypes.TickToSqrtPrice(tick, tp)
+					if err != nil {
+						return "err"
+					}
+					spRaw = sp.BigInt()
+					return rawOf(sp)
+				}))
+				if spRaw != nil {
+					for _, d := range []int64{0, 1, -1, int64(r.n(1000000))} {
+						q := new(big.Int).Add(spRaw, big.NewInt(d))
+						if q.Sign() <= 0 {
+							continue
+						}
+						emit(fmt.Sprintf("K SqrtPriceToTick %s %s %s", q, rawOf(rr), rawOf(ro)), guard(func() string {
+							t, err := lptypes.CalculateSqrtPriceToTick(dec(q), tp)
+							if err != nil {
+								return "err"
+							}
+							return fmt.Sprint(t)
+						}))
+					}
+				}
+			}
 			amtQ := r.bigDigits(30)
 			pc := r.decRaw(30, false)
 			emit(fmt.Sprintf("K GetLiquidityFromAmounts %s %s %s %s %s", pc, pa, pb, amt, amtQ), guard(func() string {
